@@ -404,3 +404,236 @@ Theorem C08_generated_read_multi_is_model :
           (read_multi St rl 65536 fuel ib limit length s).
 Proof. exact gen_read_multi_is_model. Qed.
 Print Assumptions C08_generated_read_multi_is_model.
+
+(* ---- translator tie of the entry part of the parser:
+   harness/py2v_fsparse.py -> gen/FsParseGen.v (FieldStorageParser.
+   _parse_content_type, parse, __init__), proofs/FsParseGenEq.v *)
+Require Import PW.lib.PyFsParse PW.gen.FsParseGen PW.proofs.FsParseGenEq.
+
+(* FieldStorageParser._parse_content_type on a header mapping and an outer
+   boundary (bytes): the media type is the third component of the model's
+   part_meta (header present -> parse_header; else text/plain inside a
+   multipart body, urlencoded at the top), the options are the parameter
+   dictionary of the header or {} *)
+Theorem C08_generated_parse_content_type_is_model :
+  forall (hs : list (list Z * list Z)) (ob : bytes),
+    gen_parse_content_type parse_header (enc_hdrs hs) (PBytes ob)
+    = Py.Ok (PTuple [PStr (snd (part_meta hs ob));
+                     enc_pdict (match hdr_get hs k_ctype with
+                                | Some v => snd (parse_header v)
+                                | None => []
+                                end)]).
+Proof. exact gen_parse_content_type_eq. Qed.
+Print Assumptions C08_generated_parse_content_type_is_model.
+
+(* FieldStorageParser.parse for every header mapping, outer boundary, limit
+   (None or an int) and any other attributes, over the three readers, the
+   encoder of the boundary parameter and int(): the one-piece form
+   parse_spec of proofs/FsParseGenEq.v (which attributes of the field and of
+   the parser are assigned from what, Content-Length -> clen with
+   ValueError -> -1, `if self.limit is None and clen >= 0`, the three-way
+   dispatch) *)
+Theorem C08_generated_parse_is_spec :
+  forall (St : Type) (E : list Z -> list Z) (INT : list Z -> option Z)
+         (RU RM RS : pv -> St -> nat -> res (pv * pv * pv * St))
+         (hs : list (list Z * list Z)) (ob : bytes) (kbv sp : pv)
+         (limit : option Z) (enc errs mnf sep cb br done fn0 ib0 len0 : pv)
+         (s : St) (fuel : nat),
+    gen_parse St parse_header E INT RU RM RS (enc_hdrs hs) (PBytes ob) kbv sp
+      (inj_lim limit) enc errs mnf sep cb br done fn0 ib0 len0 s fuel
+    = parse_spec St E INT RU RM RS hs ob kbv sp limit enc errs mnf sep cb br
+        done ib0 s fuel.
+Proof. exact gen_parse_eq. Qed.
+Print Assumptions C08_generated_parse_is_spec.
+
+(* ... for the parser of one part (no Content-Length left, nothing read yet,
+   read_single = read_lines_to_outerboundary of the model, the two part
+   types the model does not follow reported as such) it is the model's
+   parse_part: name and filename from Content-Disposition, the type, the
+   unchanged limit, the same dispatch *)
+Theorem C08_generated_parse_part_is_model :
+  forall (St : Type) (rl : Z -> St -> bytes * St) (E : list Z -> list Z)
+         (INT : list Z -> option Z)
+         (RU RM RS : pv -> St -> nat -> res (pv * pv * pv * St))
+         (hs : list (list Z * list Z)) (ob : bytes) (plimit : option Z)
+         (kbv sp enc errs mnf sep cb : pv) (fuel : nat),
+    hdr_get hs k_clen = None ->
+    (forall self s, RU self s fuel = unmodelled w_urlencoded_part) ->
+    (forall self s, RM self s fuel = unmodelled w_nested_multipart) ->
+    (forall fn ib s,
+        RS (PTuple [enc_hdrs hs; PBytes ob; kbv; sp; inj_lim plimit; enc;
+                    errs; mnf; sep; cb; PInt 0; PInt 0; inj_name fn; ib;
+                    PInt (-1)]) s fuel
+        = single_model St rl ob plimit fuel s) ->
+    forall (ib0 : pv) (fn0 len0 : pv) (s : St),
+      part_view
+        (gen_parse St parse_header E INT RU RM RS (enc_hdrs hs) (PBytes ob)
+           kbv sp (inj_lim plimit) enc errs mnf sep cb (PInt 0) (PInt 0) fn0
+           ib0 len0 s fuel)
+      = inj_out (inj_part St) (parse_part St rl 65536 fuel hs ob plimit s).
+Proof.
+  intros. rewrite gen_parse_eq. apply parse_spec_part; assumption.
+Qed.
+Print Assumptions C08_generated_parse_part_is_model.
+
+(* ... and for the top-level parser as the constructor leaves it, with the
+   generated read_multi of gen/MultiGen.v as its multipart reader, it is the
+   model's parse (field.list and the input object), whenever the model finds
+   the first delimiter line within its fuel *)
+Theorem C08_generated_parse_is_model :
+  forall (St : Type) (rl : Z -> St -> bytes * St) (INT : list Z -> option Z)
+         (PARSE : nat -> pv -> St -> res (pv * pv * pv * St))
+         (RU RS : pv -> St -> nat -> res (pv * pv * pv * St))
+         (hs : list (list Z * list Z)) (kbv sp enc errs sep cb : pv)
+         (fuel : nat),
+    (forall hdrs plimit mnf s,
+        PARSE fuel
+          (PTuple [enc_hdrs hdrs; PBytes (top_ib hs); kbv; sp; inj_lim plimit;
+                   enc; errs; inj_lim mnf; sep; cb]) s
+        = inj_out (inj_part St)
+            (parse_part St rl 65536 fuel hdrs (top_ib hs) plimit s)) ->
+    (forall self s, RU self s fuel = unmodelled w_urlencoded) ->
+    (forall self s, RS self s fuel = unmodelled w_single_at_top) ->
+    forall s : St,
+      skip_to_boundary St rl fuel (dashb (top_ib hs)) 0 s <> None ->
+      top_view
+        (gen_parse St parse_header enc_model INT RU
+           (RM_gen St rl PARSE) RS (enc_hdrs hs) (PBytes []) kbv sp PNone enc
+           errs PNone sep cb (PInt 0) (PInt 0) PNone (PBytes []) (PInt (-1))
+           s fuel)
+      = inj_out (inj_fields St)
+          (parse St rl 65536 fuel (hdr_get hs k_ctype)
+             (clen_of INT hs) s).
+Proof. exact gen_parse_top_is_model. Qed.
+Print Assumptions C08_generated_parse_is_model.
+
+(* FieldStorageParser.__init__: the ten arguments are stored as they come,
+   bytes_read = 0, done = 0, filename = None, innerboundary = b"",
+   length = -1 (what the two theorems above start from), a TextIOWrapper is
+   replaced by its buffer; the defaults of the signature *)
+Theorem C08_generated_parser_init_is_model :
+  forall (St : Type) (IS_TEXTIO : St -> bool) (BUFFER : St -> St) (s : St)
+         (h ob kbv sp lim enc errs mnf sep cb : pv),
+    gen_init St IS_TEXTIO BUFFER s h ob kbv sp lim enc errs mnf sep cb
+    = Py.Ok (PTuple [h; ob; kbv; sp; lim; enc; errs; mnf; sep; cb;
+                     PInt 0; PInt 0; PNone; PBytes []; PInt (-1)],
+             if IS_TEXTIO s then BUFFER s else s).
+Proof. exact gen_init_eq. Qed.
+Print Assumptions C08_generated_parser_init_is_model.
+
+Theorem C08_generated_parser_init_defaults :
+  gen_init_defaults
+  = [PNone; PBytes []; PInt 0; PInt 0; PNone; PStr [117; 116; 102; 45; 56];
+     PStr [114; 101; 112; 108; 97; 99; 101]; PNone; PStr [38]; PNone].
+Proof. exact gen_init_defaults_eq. Qed.
+Print Assumptions C08_generated_parser_init_defaults.
+
+(* constructor (arguments in the order read_multi hands them over) + parse()
+   of a part = the model's parse_part: the assumption PARSE_spec of
+   C08_generated_part_loop_is_model / C08_generated_read_multi_is_model,
+   discharged by generated code up to the attributes the model keeps *)
+Theorem C08_generated_subparser_is_model :
+  forall (St : Type) (IS_TEXTIO : St -> bool) (BUFFER : St -> St)
+         (rl : Z -> St -> bytes * St) (E : list Z -> list Z)
+         (INT : list Z -> option Z)
+         (RU RM RS : pv -> St -> nat -> res (pv * pv * pv * St))
+         (hs : list (list Z * list Z)) (ob : bytes) (plimit : option Z)
+         (kbv sp enc errs mnf sep cb : pv) (fuel : nat) (s : St),
+    IS_TEXTIO s = false ->
+    hdr_get hs k_clen = None ->
+    (forall self s, RU self s fuel = unmodelled w_urlencoded_part) ->
+    (forall self s, RM self s fuel = unmodelled w_nested_multipart) ->
+    (forall fn ib s,
+        RS (PTuple [enc_hdrs hs; PBytes ob; kbv; sp; inj_lim plimit; enc;
+                    errs; mnf; sep; cb; PInt 0; PInt 0; inj_name fn; ib;
+                    PInt (-1)]) s fuel
+        = single_model St rl ob plimit fuel s) ->
+    part_view
+      (PARSE_gen St IS_TEXTIO BUFFER E INT RU RM RS fuel
+         (PTuple [enc_hdrs hs; PBytes ob; kbv; sp; inj_lim plimit; enc; errs;
+                  mnf; sep; cb]) s)
+    = inj_out (inj_part St) (parse_part St rl 65536 fuel hs ob plimit s).
+Proof. exact PARSE_gen_is_parse_part. Qed.
+Print Assumptions C08_generated_subparser_is_model.
+
+(* FieldStorageParser.read_lines inside a multipart body (outer boundary not
+   empty): make_file() if filename and file_callback, else a fresh BytesIO
+   (filename) or StringIO -- the file model's [start] -- then the generated
+   read_lines_to_outerboundary, i.e. the model's rlob; read_lines_to_eof
+   (no outer boundary) stays a parameter *)
+Theorem C08_generated_read_lines_is_model :
+  forall (St : Type) (rl : Z -> St -> bytes * St) (D : list Z -> list Z)
+         (READ_EOF : pv -> pv -> St -> nat -> res (pv * pv * pv * St))
+         (hs kbv sp mnf sep ib : pv) (fn : option (list Z))
+         (cb enc errs : pv) (ob : bytes) (limit : option Z) (B0 : Z)
+         (fuel : nat),
+    ob <> [] ->
+    forall (len : pv) (s : St),
+      gen_read_lines St rl D READ_EOF hs (PBytes ob) kbv sp (inj_lim limit)
+        enc errs mnf sep cb (PInt B0) (PInt 0) (inj_name fn) ib len s fuel
+      = unpack
+          (inj_res St D fn enc B0
+             (rlob St rl 65536 fuel (dashb ob) (dashb ob ++ [45; 45]) limit
+                   [] [] true 0 s) (start fn cb)).
+Proof. exact gen_read_lines_eq. Qed.
+Print Assumptions C08_generated_read_lines_is_model.
+
+(* ... and outside a multipart body (no outer boundary): the same file,
+   handed to read_lines_to_eof (a parameter) *)
+Theorem C08_generated_read_lines_eof_is_start :
+  forall (St : Type) (rl : Z -> St -> bytes * St) (D : list Z -> list Z)
+         (READ_EOF : pv -> pv -> St -> nat -> res (pv * pv * pv * St))
+         (hs kbv sp mnf sep ib : pv) (fn : option (list Z))
+         (cb enc errs : pv) (limit : option Z) (fuel : nat)
+         (len br done : pv) (s : St),
+    gen_read_lines St rl D READ_EOF hs (PBytes []) kbv sp (inj_lim limit) enc
+      errs mnf sep cb br done (inj_name fn) ib len s fuel
+    = READ_EOF
+        (PTuple [hs; PBytes []; kbv; sp; inj_lim limit; enc; errs; mnf; sep;
+                 cb; br; done; inj_name fn; ib; len])
+        (inj_file D fn enc (start fn cb)) s fuel.
+Proof. exact gen_read_lines_eof_eq. Qed.
+Print Assumptions C08_generated_read_lines_eof_is_start.
+
+(* FieldStorageParser.read_single for every int self.length.  Without a
+   declared length (a part: self.length = -1): read_lines, file.seek(0); the
+   returned file is the one _write leaves after the model's pieces on
+   [start], self.done and self.bytes_read are the model's (the step
+   "read_single: self.length = -1 -> read_lines ->
+   read_lines_to_outerboundary" of the model's parse_part).  With one
+   (self.length >= 0): read_binary, skip_lines on what read_binary left,
+   file.seek(0) -- both stay parameters *)
+Theorem C08_generated_read_single_is_model :
+  forall (St : Type) (rl : Z -> St -> bytes * St) (D : list Z -> list Z)
+         (READ_BINARY SKIP_LINES : pv -> St -> nat -> res (pv * pv * pv * St))
+         (READ_EOF : pv -> pv -> St -> nat -> res (pv * pv * pv * St))
+         (hs kbv sp mnf sep ib : pv) (fn : option (list Z))
+         (cb enc errs : pv) (ob : bytes) (limit : option Z) (B0 : Z)
+         (fuel : nat),
+    ob <> [] ->
+    forall (L : Z) (s : St),
+      gen_read_single St rl D READ_BINARY SKIP_LINES READ_EOF hs (PBytes ob)
+        kbv sp (inj_lim limit) enc errs mnf sep cb (PInt B0) (PInt 0)
+        (inj_name fn) ib (PInt L) s fuel
+      = if 0 <=? L then
+          pr <- READ_BINARY
+                  (self_of hs kbv sp mnf sep ib fn cb enc errs ob limit
+                     (PInt B0) (PInt 0) L) s fuel ;;
+          let '(f, d, n, s1) := pr in
+          pr2 <- SKIP_LINES
+                   (self_of hs kbv sp mnf sep ib fn cb enc errs ob limit n d L)
+                   s1 fuel ;;
+          let '(_, d2, n2, s2) := pr2 in
+          f' <- pseek f (PInt 0) ;;
+          Py.Ok (f', d2, n2, s2)
+        else
+          match rlob St rl 65536 fuel (dashb ob) (dashb ob ++ [45; 45]) limit
+                     [] [] true 0 s with
+          | RFuel => out_of_fuel
+          | RDone ps d n s' =>
+              Py.Ok (inj_file D fn enc
+                       (fold_left (mwrite D fn) ps (start fn cb)),
+                     PInt d, PInt (B0 + n), s')
+          end.
+Proof. exact gen_read_single_eq. Qed.
+Print Assumptions C08_generated_read_single_is_model.
